@@ -321,7 +321,8 @@ if sub[0] != (h.bins["a"].entries if "a" in h.bins else 0.0) or sub[1] != 0.0: r
 
 
 def harnesses(tier):
-    out = []
+    import gen_C13_extra
+    out = gen_C13_extra.harnesses(tier)
     for n, cfg in BIN_CFGS.items():
         if tier == "quick" and n == "8,0,2":
             continue
